@@ -66,8 +66,23 @@ def gc_phase_order(rec, F):
 
     b_root = one(is_root_mark, "mark-roots")
     b_temp = one(is_temp_mark, "mark-temp-roots")
-    b_intern = one(lambda t: t["f"] == ALLOC + "::sweep_intern_cache", "evict-intern")
-    obj_sweep = [(bi, t) for bi, t in fn.calls() if t["f"].startswith(ALLOC + "::sweep_") and t["f"] != ALLOC + "::sweep_intern_cache"]
+    INTERN = ALLOC + "::sweep_intern_cache"
+
+    def must_reach_intern(t, depth=2):
+        """the call certainly runs the intern eviction (directly, or unconditionally inside the callee)"""
+        if t["f"] == INTERN:
+            return True
+        c = F.fn(t["f"])
+        if c is None or depth == 0 or not c.path.startswith(ALLOC):
+            return False
+        must = set(x for x in c.pdom.get(0, set()) if x >= 0)
+        return any(bi in must and must_reach_intern(tt, depth - 1) for bi, tt in c.calls())
+    b_intern = one(must_reach_intern, "evict-intern")
+    obj_sweep = [(bi, t) for bi, t in fn.calls() if t["f"].startswith(ALLOC + "::sweep_") and t["f"] != INTERN]
+    nested_intern = None
+    if b_intern is not None and fn.blocks[b_intern]["t"]["f"] != INTERN:
+        # the eviction lives inside a sweeping callee: inside it, it must come before anything that unmarks
+        nested_intern = F.fn(fn.blocks[b_intern]["t"]["f"])
     # temp_roots receiver check
     if b_temp is not None:
         t = fn.blocks[b_temp]["t"]
@@ -101,6 +116,16 @@ def gc_phase_order(rec, F):
     if not okg:
         rec.finding(R, "F4.gc-order/can_collect", "marking/sweeping is not confined to the can_collect() == true branch", loc=fn.loc, fn=fn.path)
     for (n1, b1), (n2, b2) in zip(chain, chain[1:]):
+        if nested_intern is not None and b1 == b2:
+            c = nested_intern
+            ib = [bi for bi, t in c.calls() if t["f"] == INTERN]
+            sweeps_in = [bi for bi, t in c.calls() if t["f"].startswith(ALLOC + "::sweep_") and t["f"] != INTERN]
+            unmark_in = [bi for bi, t in c.calls() if any(any(lastseg(x.get("decl", x["f"])) == "unmark" for _, x in cl.calls()) for cp in sem.closure_args_of_call(c, t) for cl in [F.fn(cp)] if cl)]
+            ok = len(ib) == 1 and all(c.dominates(ib[0], x) and x != ib[0] for x in sweeps_in + unmark_in) and bool(sweeps_in + unmark_in)
+            rec.inst(R, "%s<%s (inside %s)" % (n1, n2, c.name), ok=ok, loc=c.loc)
+            if not ok:
+                rec.finding(R, "F4.gc-order/%s-before-%s" % (n1, n2), "%s: %s does not precede %s on every path" % (c.name, n1, n2), loc=c.loc, fn=c.path)
+            continue
         ok = b1 != b2 and fn.dominates(b1, b2)
         rec.inst(R, "%s<%s" % (n1, n2), ok=ok, loc=fn.loc)
         if not ok:
@@ -298,7 +323,8 @@ def sweeper_fns(F):
 def sweep_siblings(rec, F):
     R = rec.rule("F10.sweep", "in every sweeper closure the retained branch adds size() to the running total and the not-retained branch adds nothing")
     sw = sweeper_fns(F)
-    if not rec.floor(R, "sweeper functions", len(sw), 3):
+    stress = F.cfg == "gc_stress"  # the nursery sweep is compiled out there
+    if not rec.floor(R, "sweeper functions (%s)" % F.cfg, len(sw), 2 if stress else 3):
         return
     n = 0
     for fn in sw:
@@ -366,7 +392,7 @@ def sweep_siblings(rec, F):
             rec.inst(R, name + ":keeps-marked", ok=ret_ok and not neg, loc=c.loc)
             if not (ret_ok and not neg):
                 rec.finding(R, "F10.sweep/%s/keep-flag" % name, "sweeper %s does not return the unmark() result as its keep flag" % name, loc=c.loc, fn=c.path)
-    rec.floor(R, "sweeper closures", n, 5)
+    rec.floor(R, "sweeper closures (%s)" % F.cfg, n, 3 if stress else 5)
 
 
 # ---------------------------------------------------------------------------
